@@ -13,7 +13,12 @@ extra() {  # further checks for a change
     C01-m6|C01-m9) echo ",C18" ;;
     C01-m11) echo ",C18" ;;
     C04-m5) echo ",C06" ;;
-    C04-m9) echo ",C03" ;;
+    C04-m6|C04-m18|C04-m14) echo ",C09,C14" ;;
+    C06-m16|C11-m19) echo ",C18" ;;
+    C15-m12|C18-m12) echo ",C04" ;;
+    C09-m18) echo ",C15" ;;
+    C04-m9|C04-m19) echo ",C03" ;;
+    C01-m19) echo ",C18" ;;
     C03-m4) echo ",C04" ;;
     C15-m7) echo ",C18" ;;
     *) echo "" ;;
